@@ -192,6 +192,8 @@ def for_targets(fnode, name):
 
 
 def unparse(n):
+    if n is None:
+        return '<missing>'
     return ' '.join(ast.unparse(n).split())
 
 
